@@ -754,3 +754,162 @@ def replay_case(c):
           and all(((k == 0 and bytes.fromhex(h) == plain[i * bs:(i + 1) * bs]) if i < nb else k == 1) for i, k, h in o["results"]))
     print("replay glue case family=%s path=%s bs=%d n=%d: new/filesz/mtime/blocks as the format says = %s" % (c["family"], c["path"], bs, len(plain), ok))
     return not ok
+
+
+# ------------------------------------------------------------------------------ read blocks above the internal block
+BIG_EPOCH0 = 1709596800              # 2024-03-05 00:00:00 UTC
+BIG_BS = [0x20000, 0x40000, 0x100000, 0xFFFFFF]
+BIG_FORMS = ["bz2-1", "bz2-2", "bz2-9", "gz-1", "gz-9", "xz", "lz4-65536", "lz4-10000"]
+
+
+def big_log(nlines):
+    """the same bytes as Corr/C05c.gen_log nlines"""
+    return b"".join(b"2024-03-05 %02d:%02d:%02d host app[%d]: big block line %06d abcdefghijklmnopqrstuvwxyz0123456789 ABCDEFGHIJ\n"
+                    % ((i // 3600) % 24, (i // 60) % 60, i % 60, i % 7, i) for i in range(nlines))
+
+
+def big_form(plain, form):
+    """-> (suffix, codec number of Corr/C05.model_block, blob, schedule / lz4 internal block sizes); deterministic"""
+    import c05
+    kind, _, par = form.partition("-")
+    if kind == "bz2":
+        return ".bz2", 2, bz2.compress(plain, int(par)), [70000, 1]
+    if kind == "gz":
+        return ".gz", 1, gz_build(plain, mtime=1, level=int(par)), [3000, 1]
+    if kind == "xz":
+        return ".xz", 4, lzma.compress(plain, format=lzma.FORMAT_XZ, preset=0), []
+    sz = int(par)
+    sizes = [sz] * (len(plain) // sz) + ([len(plain) % sz] if len(plain) % sz else [])
+    return ".lz4", 3, c05.lz4_frame(plain, sizes, bd=4, content_checksum=True), sizes
+
+
+def big_files(d, nlines, forms):
+    os.makedirs(d, exist_ok=True)
+    plain = big_log(nlines)
+    pp = put(os.path.join(d, "big.log"), plain)
+    out = {}
+    for form in forms:
+        suf, codec, blob, sched = big_form(plain, form)
+        os.makedirs(os.path.join(d, form), exist_ok=True)
+        out[form] = (put(os.path.join(d, form, "big.log" + suf), blob), codec, sched)
+    return plain, pp, out
+
+
+def big_blocks(ctx, scratch, quick):
+    """text logs of 250-700 kB stored as bz2 (levels 1, 2, 9), gz (1, 9), xz, lz4 (64 KiB / 10000-byte frame
+    blocks) read at block sizes ABOVE the compressor's internal block, with and without a window.
+    B: in-process read_block (kind, length, digest of every block) vs the Coq model on the log GENERATED in Coq;
+    C: kinds / lengths vs the slices of the plain bytes, and stdout of the binary vs the plain file."""
+    import c05
+    sizes_lines = [3150, 6200] if quick else [2400, 3150, 4800, 6200, 6700]      # ~105 bytes per line
+    forms = BIG_FORMS if not quick else ["bz2-1", "bz2-2", "bz2-9", "gz-1", "gz-9", "xz", "lz4-65536"]
+    suffix_fta = {".bz2": "bz2", ".gz": "gz", ".xz": "xz", ".lz4": "lz4"}
+    files, lines, plan = [], [], []
+    for nl in sizes_lines:
+        d = os.path.join(scratch, "big%d" % nl)
+        # quick tier: every form on the smaller log, the bz2 levels with several internal blocks + gz + xz on the larger
+        plain, pp, out = big_files(d, nl, forms if not (quick and nl > 4000) else ["bz2-1", "bz2-2", "gz-1", "xz"])
+        files.append((nl, plain, pp, out))
+        for form, (path, codec, sched) in out.items():
+            for bs in BIG_BS:
+                nb = (len(plain) + bs - 1) // bs
+                lines.append("openh\t%s\t%d\t%d\t%s" % (hx(path.encode()), FTA[suffix_fta[os.path.splitext(path)[1]]], bs, ",".join(map(str, range(nb + 1)))))
+                plan.append((nl, form, bs))
+    outl, err = vlib.harness("c05", lines, timeout=600)
+    if outl is None or len(outl) != len(lines):
+        ctx.obligation_broken("correspondence", "harness c05 openh (large read blocks)", err)
+        return {}
+    per = {}
+    spec_fail = 0
+    byfile = {nl: (plain, pp, out) for nl, plain, pp, out in files}
+    for (nl, form, bs), raw in zip(plan, outl):
+        plain, pp, out = byfile[nl]
+        path, codec, sched = out[form]
+        res = []
+        if raw.startswith("OK "):
+            f = raw.split(" ")
+            for t in f[2:]:
+                i, k, ln, dg = t.split(":")
+                res.append((int(i), {"F": 0, "D": 1, "E": 2}[k], int(ln), int(dg)))
+            filesz = int(f[1])
+        else:
+            filesz = -1
+        per.setdefault((nl, form), []).append((bs, res))
+        # C1: kinds and lengths against the slices of the plain bytes
+        n = len(plain)
+        nb = (n + bs - 1) // bs
+        want = [(i, 0, min(bs, n - i * bs)) if i < nb else (i, 1, 0) for i in range(nb + 1)]
+        got = [(i, k, ln) for i, k, ln, _ in res]
+        if filesz != n or got != want:
+            cls = ["lz4_frame_block_boundary_inside_read_block"] if (codec == 3 and c05.lz4_misaligned(sched, bs, n)) else []
+            ctx.failure(dict(level="bigblock", what="read_block kinds and lengths", nlines=nl, form=form, bs=bs, n=n, path=path),
+                        "filesz %d, blocks %s" % (n, want[:8]), "filesz %d, blocks %s" % (filesz, got[:8]) if filesz >= 0 else raw[:200], cls)
+            spec_fail += 1
+    texts, owners = [], []
+    for (nl, form), pbs in per.items():
+        plain, pp, out = byfile[nl]
+        path, codec, sched = out[form]
+        texts.append("(%d%%N, %d%%N, %s, [%s])" % (codec, nl, nl_list(sched), "; ".join(
+            "(%d%%N, [%s])" % (bs, "; ".join("(%d%%N, %d%%N, %d%%N, %d%%N)" % r for r in res)) for bs, res in pbs)))
+        owners.append(dict(nlines=nl, form=form, path=path, results=[(bs, [(i, k, ln) for i, k, ln, _ in res]) for bs, res in pbs]))
+    bad = coq_batch(ctx, [("big", "big_case_bad", "big_case_t", texts)])
+    if bad is not None and bad["big"]:
+        i = sorted(bad["big"])[0]
+        ctx.obligation_broken("correspondence", "BlockReader::read_block at block sizes above the compressor's internal block vs Model.Assemble (kind, length, digest of every block; log generated in Coq)",
+                              json.dumps(dict(codes=bad["big"][i], disagreeing_cases=len(bad["big"]), **owners[i]))[:3000])
+    # C2: stdout of the binary
+    jobs = []
+    for nl, plain, pp, out in files:
+        mid = BIG_EPOCH0 + nl // 2
+        for bs in BIG_BS:
+            for w in ([], ["-a", "+%d" % mid]):
+                jobs.append((nl, "plain", pp, bs, w, 0, []))
+                for form, (path, codec, sched) in out.items():
+                    jobs.append((nl, form, path, bs, w, codec, sched))
+
+    def one(j):
+        return vlib.run_s4(["--color", "never", "--blocksz", str(j[3])] + j[4] + [j[2]], timeout=180, env={"TZ": "UTC"})
+    with ThreadPoolExecutor(max_workers=vlib.NCPU) as ex:
+        outs = list(ex.map(one, jobs))
+    ref = {(j[0], j[3], tuple(j[4])): o for j, o in zip(jobs, outs) if j[1] == "plain"}
+    agree = sfail = 0
+    for j, o in zip(jobs, outs):
+        nl, form, path, bs, w, codec, sched = j
+        if form == "plain":
+            continue
+        p = ref[(nl, bs, tuple(w))]
+        if o[1] == p[1] and o[0] != 124:
+            agree += 1
+            continue
+        sfail += 1
+        n = len(byfile[nl][0])
+        cls = ["lz4_frame_block_boundary_inside_read_block"] if (codec == 3 and c05.lz4_misaligned(sched, bs, n)) else []
+        ctx.failure(dict(level="bigblock", what="stdout", nlines=nl, form=form, bs=bs, n=n, args=["--blocksz", str(bs)] + w, path=path, plain_path=byfile[nl][1]),
+                    "stdout of the plain file (%d bytes)" % len(p[1]), "stdout %d bytes, rc %d, stderr %s" % (len(o[1]), o[0], o[2][-200:].decode("utf-8", "replace")), cls)
+    return dict(bigblock_files=len(files), bigblock_forms=forms, bigblock_block_sizes=BIG_BS, bigblock_reader_runs=len(lines), bigblock_blocks_compared=sum(len(r) for v in per.values() for _, r in v),
+                bigblock_model_disagreements=0 if not bad else len(bad["big"]), bigblock_spec_failures=spec_fail, bigblock_stdout_runs=len(jobs), bigblock_stdout_agree=agree, bigblock_stdout_failures=sfail)
+
+
+def nl_list(xs):
+    return "[" + "; ".join("%d%%N" % x for x in xs) + "]"
+
+
+def replay_big(c):
+    """regenerate the (deterministic) files of a large-read-block failure and run it again; True = still fails"""
+    d = os.path.join(CACHE, "scratch", "C05-replay-big%d" % c["nlines"])
+    plain, pp, out = big_files(d, c["nlines"], [c["form"]])
+    path = out[c["form"]][0]
+    if c.get("what") == "stdout":
+        a = vlib.run_s4(["--color", "never"] + c["args"] + [pp], timeout=180, env={"TZ": "UTC"})
+        b = vlib.run_s4(["--color", "never"] + c["args"] + [path], timeout=180, env={"TZ": "UTC"})
+        print("replay large-block stdout form=%s args=%s: plain %d bytes, stored %d bytes (rc %d), equal=%s" % (c["form"], c["args"], len(a[1]), len(b[1]), b[0], a[1] == b[1]))
+        return a[1] != b[1]
+    bs, n = c["bs"], len(plain)
+    nb = (n + bs - 1) // bs
+    fta = {".bz2": "bz2", ".gz": "gz", ".xz": "xz", ".lz4": "lz4"}[os.path.splitext(path)[1]]
+    outl, err = vlib.harness("c05", ["openh\t%s\t%d\t%d\t%s" % (hx(path.encode()), FTA[fta], bs, ",".join(map(str, range(nb + 1))))])
+    raw = (outl or [err])[0]
+    got = [tuple(t.split(":")[:3]) for t in raw.split(" ")[2:]] if raw.startswith("OK ") else None
+    want = [(str(i), "F", str(min(bs, n - i * bs))) if i < nb else (str(i), "D", "0") for i in range(nb + 1)]
+    print("replay large-block read_block form=%s bs=%d n=%d: kinds and lengths as the plain slices = %s" % (c["form"], bs, n, got == want))
+    return got != want
